@@ -236,6 +236,7 @@ package corerad
 //@   assigns everything
 //@   at send ipC(v): assert D1 [C07,C09]: ghost.handled && addrIsValid(ghost.hres) && v == ghost.hres ; ghost.sends = ghost.sends + 1
 //@   ensures S1 [C07]: ghost.sends <= 1
+//@   ensures S2 [C07]: result == nil && ghost.handled && addrIsValid(ghost.hres) ==> ghost.sends == 1 || isDone(ctx)
 //@   opt safety [C10]
 
 // No worker outlives the scheduler (C08: nothing is transmitted after the final
